@@ -5,5 +5,5 @@ mods=$(for i in $(cat /verif/lib/claimed.txt); do echo -n "Marwood.Proofs.$i "; 
 mods="$mods $(cat /verif/lib/extra_modules.txt 2>/dev/null | tr '\n' ' ')"
 if timeout 2400 lake build $mods driver 2>&1 | grep -qE "^error|error:"; then echo "snap: build failed, nothing committed"; exit 1; fi
 cd /verif; python3 lib/mkmanifest.py > /dev/null
-git add check lean lib harness corpus known_findings translate tools seeded evidence MANIFEST.json DESIGN.md CONVENTIONS.md known_findings.json 2>/dev/null
+git add check lean lib harness corpus known_findings translate tools seeded seeded-benign evidence MANIFEST.json DESIGN.md CONVENTIONS.md known_findings.json 2>/dev/null
 git commit -qm "$1" && echo "snap: committed"
